@@ -8,7 +8,7 @@ PRELUDE = programs.PRELUDE + "impl Marker for ::unimock::Unimock {}\n"
 def render(case, c, seed):
     p = dict(c["prog"])
     is_trait = p["mode"] == "trait"
-    pr = programs.Prog(case, {**p, "opt": "mock", "mode": ("fn" if is_trait else p["mode"])}, c["leaves"], seed)
+    pr = programs.Prog(case, {**{k: v for k, v in p.items() if k != "stamp"}, "opt": "mock", "mode": ("fn" if is_trait else p["mode"])}, c["leaves"], seed)
     is_async = p["async"]
     nparams = len(p["params"])
     if is_trait:
@@ -22,6 +22,12 @@ def render(case, c, seed):
         item = f"#[::entrait::entrait_export(mock_api = Mk, unimock)]\npub trait T {{\n{methods}\n}}\n"
     else:
         item = pr.item_text()
+        if p.get("stamp"):
+            import re
+            m = re.match(r"(?s)(#\[[^\n]*\])\n(async )?fn f1\((.*?)\) -> String (\{.*\})\n$", item)
+            attr, asy, params, body = m.group(1), m.group(2) or "", m.group(3), m.group(4)
+            item = (f"macro_rules! stamp {{ ([$($params:tt)*] $body:block) => {{ {attr} {asy}fn f1($($params)*) -> String $body }} }}\n"
+                    f"stamp! {{ [{params}] {body} }}\n")
     exprs, logged = pr.call_args()
     args_json = ",".join('\\"' + l + '\\"' for l in logged)
     argl = "".join(", " + e for e in exprs)
